@@ -62,6 +62,11 @@ def configs(tier):
                 out.append(("incompatible", delim, n, what))
         out.append(("append_missing", delim, 0, 2))
         out.append(("recfile_append", delim, 2, 1))
+    # records.cpp itself: rows always go to the end of the file, the row count is rewritten in place
+    for n in (1, 2):
+        out.append(("xx_update_row_count", None, n, 0))
+        for k in (1, 2):
+            out.append(("xx_write_binary", None, n, k))
     return out
 
 
@@ -139,8 +144,19 @@ def _check_file(cx, what, f, ld, chunks, delim, hdr_user):
             cx.check_eq("%s: read-back rows in order" % what, g, w_)
 
 
+def extra_functions():
+    from props import recxx
+    return recxx.functions()
+
+
 def harness(cx, cfg):
     what, delim = cfg[0], cfg[1]
+    if what == "xx_update_row_count":
+        from props import recxx
+        return recxx.h_update_row_count(cx, cfg[2])
+    if what == "xx_write_binary":
+        from props import recxx
+        return recxx.h_write_binary(cx, cfg[2], cfg[3])
     vfs, ld = _env(cx)
     sf = ld.get("esutil.sfile")
     f = vfs.get(FNAME)
@@ -263,6 +279,22 @@ def replay(cand):
                 return {"reproduced": True, "key": "%s:header" % what, "what": "%s (%s): user header key %r = %r after the operation" % (desc, tag, k, h.get(k))}
         return None
     try:
+        if what in ("xx_update_row_count", "xx_write_binary"):
+            # the position-dependent case: read part of the file through an r+ handle, then write
+            for dl in (None, ","):
+                fn2 = os.path.join(d, "x%s.rec" % ("t" if dl else "b"))
+                c0, c1 = _real_chunk(DESCR, 3, 1), _real_chunk(DESCR, 2, 50)
+                sfile.write(c0, fn2, delim=dl, header=dict(HDR))
+                with sfile.SFile(fn2, mode="r+") as h:
+                    _ = h[0:1]
+                    _ = h.read(rows=[0], columns=["x"])
+                    h.write(c1)
+                back, hh = sfile.read(fn2, header=True)
+                want = np.concatenate([c0, c1])
+                if back.size != 5 or hh["_SIZE"] != 5 or any(not np.array_equal(back[nm], want[nm]) for nm in want.dtype.names):
+                    return {"reproduced": True, "key": "cxx:append-position", "what": "partial read then write through one r+ handle (%s): file holds x=%r (header %r), expected %r"
+                            % ("text" if dl else "binary", back["x"].tolist(), hh.get("_SIZE"), want["x"].tolist())}
+            return no
         if what == "create_write_again":
             _, _, k1, k2 = cfg
             c1, c2 = _real_chunk(DESCR, k1, 1), _real_chunk(DESCR, k2, 50)
